@@ -57,6 +57,16 @@ theorem C03_roundtrip (seq : Nat) (P : Bytes) (hs : seq < 8) (hP : P.length ≤ 
       (none, List.replicate ((frames seq P).length - 1) Out.stored ++ [Out.complete P]) :=
   run_frames seq P hs hP r0 h0
 
+/-- **A reused sequence counter does not mix messages.**  The same conclusion from ANY stream state — also one that holds
+leftovers of an unfinished message with this very counter — as long as the message's first frame is not a mere repetition
+of the first frame stored there (`startsNew`: other counter, other data bytes or other announced length): the first frame
+then starts a new message. -/
+theorem C03_roundtrip_reused_counter (seq : Nat) (P : Bytes) (hs : seq < 8) (hP : P.length ≤ 223)
+    (r0 : Option Rec) (hnew : startsNew r0 seq (P.length :: P.take 6) = true) :
+    run r0 (frames seq P) =
+      (none, List.replicate ((frames seq P).length - 1) Out.stored ++ [Out.complete P]) := by
+  sorry
+
 /-- consecutive messages (counter wrap-around included): each is returned exactly once, in order -/
 def encodeAll : Nat → List Bytes → List Bytes
   | _, [] => []
